@@ -54,6 +54,9 @@ CLAIMS = {
  "C10": dict(engine="coq-layer-m", tech="Coq proof about an executable model of the scatter semantics and trainable groups + correspondence/direct predicate on the implementation",
    text="Full for the model: Coq theorems (axiom-free) that scattering a value onto in-range rows changes exactly those rows, that a trainable shared by groups of any (equal or unequal) sizes reaches all and only the rows of its group while every other row keeps its value, and that the padding of shorter groups keeps the set of rows; the old -1 padding stays refuted. The code is tied by comparing set / data_set / make_trainable (arrays and simulations), untouched rows and write_trainables on sampled views, and by running the implementation's own index table through the model.",
    note=M_NOTE, ref="DESIGN.md §5 C10"),
+ "C19": dict(engine="coq-layer-m", tech="Coq proof of an invariant over all operation sequences of a state-machine model of the table bookkeeping + invariant evaluation on the real tables after every operation and comparison with a module rebuilt from the tables",
+   text="Full for the modelled alphabet: Coq theorem (axiom-free, induction over the operation list) that every accepted sequence of insert / delete_channel / record / delete_recordings / stimulate / delete_stimuli / add_to_group / set_ncomp on arbitrary row sets and any (shared) column ownership keeps 'all references exist' and 'a parameter column is defined exactly on the rows of the channels that own it'; the old delete_channel is refuted. The code is tied by random histories over 14 operations (set, clamp, make_trainable, delete_trainables, init_states, connect included) with the same invariants evaluated on the public tables after every step, insert/delete round trips, view-level deletions on networks, and a final integrate compared with a module rebuilt from the displayed tables only.",
+   note=M_NOTE + " Operations outside the modelled alphabet (set, clamp, trainables, init_states, connect) are covered by the direct predicate only.", ref="DESIGN.md §5 C19"),
  "C20": dict(engine="coq-layer-m", tech="Coq proof about an executable model of the index layouts + correspondence with the implementation",
    text="Full for the model: Coq theorems (axiom-free, all population sizes incl. n_pre != n_post, all matrices, every number of drawn connections incl. 0 and 1) that fully_connect yields exactly pre x post once each, sparse_connect is total, connectivity_matrix_connect yields exactly the True entries, and the presynaptic site is the first compartment of its cell. The model is compared with jaxley.connect on enumerated sizes/matrices/seeds on every run; the two repaired defects stay refuted in the model of the old code.",
    note=M_NOTE, ref="DESIGN.md §5 C20"),
